@@ -573,6 +573,9 @@ var sigMutNames = []string{"flip-r", "flip-s", "v^1", "v^4", "trunc64", "one-byt
 // mutateSig returns a deterministic corruption of a canonical signature.
 func mutateSig(sig []byte, kind int) []byte {
 	s := append([]byte(nil), sig...)
+	if len(s) != 65 { // already corrupted in length (two mutations of one entry): leave it
+		return s
+	}
 	switch kind {
 	case 0:
 		s[5] ^= 0x10
